@@ -501,6 +501,11 @@ func (ex *Exec) applyFunc(st *State, fn *types.Func, args []*Val, e *ast.CallExp
 		res, handled := m(ex, st, fn, args, e)
 		if handled {
 			ex.runHooksFn(st, fn, args, res, pos)
+			if ex.exitAfterHooks {
+				ex.exitAfterHooks = false
+				st.assume(tFalse)
+				st.dead = true
+			}
 			return res
 		}
 	}
@@ -556,7 +561,7 @@ var pureLib = map[string]bool{
 	"netip.Addr.IsUnspecified": true, "netip.AddrPort.String": true,
 	"x509.MarshalPKIXPublicKey": true, "base64.Encoding.DecodeString": true, "x509.ParseCertificate": true,
 	"fs.FileMode.IsRegular": true, "fs.FileInfo.Mode": true, "fs.FileInfo.IsDir": true, "fs.FileInfo.ModTime": true,
-	"time.Time.IsZero": true,
+	"time.Time.IsZero": true, "time.Time.Add": true,
 }
 
 var libWriters = map[string]bool{
@@ -654,6 +659,11 @@ func (ex *Exec) applyContract(st *State, fn *types.Func, fs *FuncSpec, u *Unit, 
 				ex.oblige(st, "pre", shortKey(key)+".nonnil."+n+"#"+ex.siteOrd(pos, key), pos, not(eq(a.Term, intLit(0))), fs.Props)
 			}
 		}
+	}
+	// locks the callee expects its caller to hold
+	for _, h := range fs.Holds {
+		_, held := st.held[h]
+		ex.obligeAST("pre", shortKey(key)+".holds."+h+"#"+ex.siteOrd(pos, key), pos, held, fmt.Sprintf("%s: %s called without holding %s", ex.posStr(pos), key, h), fs.Props)
 	}
 	// callee ghost locals without initialiser are chosen by the callee
 	ghostNames := map[string]bool{}
